@@ -51,6 +51,9 @@ type c10PoolRig struct {
 	lastEnd  map[*Conn]string
 	seq      int
 	mk       func() *Pool
+	// idle pooled connections whose peer end the harness has closed, with the FIN
+	// confirmed as received by the pooled socket (value: local address)
+	peerClosed map[*Conn]string
 }
 
 func (g *c10PoolRig) nodePool() *NodeConnectionPool {
@@ -96,6 +99,27 @@ func (g *c10PoolRig) acquire(r *rand.Rand) *c10PT {
 	if pt.after == "" {
 		pt.after = "new"
 	}
+	if la, stale := g.peerClosed[conn]; stale {
+		// Pool.Get handed out a connection whose peer end was closed -- and the FIN seen by
+		// this very socket -- before Get was called. Nothing written on it can arrive. The
+		// property allows an error; it does not allow the stream to accept the bytes.
+		delete(g.peerClosed, conn)
+		g.run.Count("peer_closed_conn_handed_out_by_get", 1)
+		conn.SetDeadline(time.Now().Add(c10Watchdog))
+		fs := NewFrameStream(conn, pt.id)
+		data := vk.Pattern(uint64(g.seq), 0, 1+r.Intn(3000))
+		n, werr := fs.Write(data)
+		if werr == nil && n == len(data) {
+			g.run.Violation("C10:pool|bytes-accepted-on-conn-closed-by-peer", map[string]any{"seed": g.run.Seed, "tunnel_seq": g.seq, "tunnel_id": idStr,
+				"local_addr": la, "write_len": len(data), "write_result": "n == len, err == nil",
+				"history": "Get, both-way exchange, Release; peer closed its end of the idle connection; end-of-stream observed on the pooled socket; next Pool.Get returned this connection"})
+		} else {
+			g.run.Count("peer_closed_conn_write_failed", 1)
+		}
+		g.pool.CloseConn(conn)
+		delete(g.lastEnd, conn)
+		return nil
+	}
 	if other, dup := g.owned[conn]; dup {
 		g.run.Violation("C10:pool|conn-shared", map[string]any{"seed": g.run.Seed, "tunnel_seq": g.seq, "new_tunnel": idStr, "live_tunnel": other,
 			"local_addr": fmt.Sprint(conn.LocalAddr()), "previous_ending_on_this_conn": pt.after})
@@ -130,6 +154,48 @@ func (g *c10PoolRig) finish(pt *c10PT, ending string) {
 		g.run.Count("conns_closed_by_pool_side", 1)
 	} else {
 		pt.conn.SetDeadline(time.Time{})
+	}
+}
+
+// peerClosesIdle: the peer node drops an idle pooled connection (idle timeout, restart).
+// The harness then waits -- on the pooled socket itself, which is idle and carries no
+// data -- until the end-of-stream has arrived there, so that what follows does not
+// depend on how long the FIN takes. It reports false if that could not be established.
+func (g *c10PoolRig) peerClosesIdle(pt *c10PT) bool {
+	tcp := pt.conn.GetTCPConn()
+	if tcp == nil {
+		return false
+	}
+	la := fmt.Sprint(pt.conn.LocalAddr())
+	g.peerSide.mu.Lock()
+	delete(g.peerSide.byRA, pt.peerTCP.RemoteAddr().String())
+	g.peerSide.mu.Unlock()
+	pt.peerTCP.Close()
+	tcp.SetReadDeadline(time.Now().Add(c10Watchdog))
+	var one [1]byte
+	n, err := tcp.Read(one[:])
+	tcp.SetReadDeadline(time.Time{})
+	if n != 0 || err != io.EOF {
+		// not the expected end-of-stream (watchdog, reset, stray byte): take the
+		// connection out of the experiment
+		g.run.Count("peer_close_not_confirmed", 1)
+		g.pool.CloseConn(pt.conn)
+		delete(g.lastEnd, pt.conn)
+		return false
+	}
+	g.peerClosed[pt.conn] = la
+	g.run.Count("idle_conns_closed_by_peer_fin_confirmed", 1)
+	return true
+}
+
+// sweepPeerClosed counts the peer-closed connections the pool has meanwhile discarded.
+func (g *c10PoolRig) sweepPeerClosed() {
+	for c := range g.peerClosed {
+		if c.GetTCPConn() == nil {
+			delete(g.peerClosed, c)
+			delete(g.lastEnd, c)
+			g.run.Count("peer_closed_conns_discarded_by_pool", 1)
+		}
 	}
 }
 
@@ -276,7 +342,7 @@ func TestVerifC10PoolReuse(t *testing.T) {
 	vk.Quiet()
 	run := vk.Start(t, "C10", "poolreuse")
 	defer run.Finish()
-	run.Rule("real Pool/NodeConnectionPool/Conn/FrameStream against a loopback listener run by the harness; rounds of 1-2 simultaneously live tunnels taken with Pool.Get, each running the both-way stream script (seeded writes, injected foreign / non-data frames, CloseWrite then Close) or ending after an over-limit frame from the peer (complete payload: zeros / random / marker), released by a single Release, by a storm of 2-4 concurrent Release calls (spin barrier), or by a storm series (re-take from the idle list, storm again); later tunnels run over whatever the pool hands out; audits: *Conn owned by <= 1 live tunnel, idle list without duplicates; distinct = (ending, release style, previous ending on the conn, pair/single)")
+	run.Rule("real Pool/NodeConnectionPool/Conn/FrameStream against a loopback listener run by the harness; rounds of 1-2 simultaneously live tunnels taken with Pool.Get, each running the both-way stream script (seeded writes, injected foreign / non-data frames, CloseWrite then Close) or ending after an over-limit frame from the peer (complete payload: zeros / random / marker), or the peer closes the idle pooled connection after a clean tunnel (end-of-stream confirmed on the pooled socket before the next Get: then no Write on that connection may be accepted); released by a single Release, by a storm of 2-4 concurrent Release calls (spin barrier), or by a storm series (re-take from the idle list, storm again); later tunnels run over whatever the pool hands out; audits: *Conn owned by <= 1 live tunnel, idle list without duplicates; distinct = (ending, release style, previous ending on the conn, pair/single)")
 	r := run.Rand("gen")
 	ctx, cancel := context.WithCancel(context.Background())
 	defer cancel()
@@ -290,7 +356,7 @@ func TestVerifC10PoolReuse(t *testing.T) {
 	mkPool := func() *Pool {
 		return NewPool(ctx, st, "c10-node-a", PoolConfig{MinConns: 0, MaxConns: 1 << 15, IdleTimeout: time.Hour, DialTimeout: 5 * time.Second})
 	}
-	g := &c10PoolRig{t: t, run: run, ctx: ctx, pool: mkPool(), mk: mkPool, peerSide: peerSide, owned: map[*Conn]string{}, lastEnd: map[*Conn]string{}}
+	g := &c10PoolRig{t: t, run: run, ctx: ctx, pool: mkPool(), mk: mkPool, peerSide: peerSide, owned: map[*Conn]string{}, lastEnd: map[*Conn]string{}, peerClosed: map[*Conn]string{}}
 	defer func() { g.pool.Close() }()
 
 	rounds := run.Pick(70, 900)
@@ -298,9 +364,12 @@ func TestVerifC10PoolReuse(t *testing.T) {
 	stop := func() bool { return run.Violations() >= 8 || run.Counter("watchdog") >= 3 }
 	afterReject := false
 	for round := 0; round < rounds && !stop(); round++ {
-		kind := []string{"exchange", "exchange", "reject", "pair", "exchange-storm-series"}[r.Intn(5)]
+		kind := []string{"exchange", "exchange", "reject", "pair", "exchange-storm-series", "peer-closes-idle"}[r.Intn(6)]
 		if round%7 == 3 {
 			kind = "reject"
+		}
+		if round%7 == 5 {
+			kind = "peer-closes-idle"
 		}
 		run.Case(fmt.Sprintf("poolreuse|%d|%s", round, kind), map[string]any{"seed": run.Seed, "round": round})
 		var live []*c10PT
@@ -312,6 +381,32 @@ func TestVerifC10PoolReuse(t *testing.T) {
 			if pt := g.acquire(r); pt != nil {
 				live = append(live, pt)
 			}
+		}
+		if kind == "peer-closes-idle" && len(live) == 1 {
+			// use and release a connection, let the peer close it while it is idle, then
+			// take connections until the pool has either discarded it or handed it out
+			pt := live[0]
+			live = nil
+			ok := g.exchange(pt, r)
+			run.Eval(1)
+			if !ok {
+				g.pool.CloseConn(pt.conn)
+				pt.peerTCP.Close()
+				g.finish(pt, "exchange-failed")
+				continue
+			}
+			pt.conn.Release()
+			g.finish(pt, "exchange")
+			if g.peerClosesIdle(pt) {
+				for k := 0; k < 6 && len(g.peerClosed) > 0; k++ {
+					if nt := g.acquire(r); nt != nil {
+						live = append(live, nt)
+					}
+					g.sweepPeerClosed()
+				}
+				run.Count("tunnels_started_after_peer_closed_an_idle_conn", int64(len(live)))
+			}
+			run.Distinct(fmt.Sprintf("peer-closes-idle|later_tunnels=%d", len(live)))
 		}
 		if afterReject {
 			run.Count("tunnels_started_right_after_a_rejected_frame_release", int64(len(live)))
@@ -426,4 +521,6 @@ func TestVerifC10PoolReuse(t *testing.T) {
 	run.Floor("tunnels_started_right_after_a_rejected_frame_release", int64(rounds/8))
 	run.Floor("tunnels_on_conn_after_exchange", int64(rounds/4))
 	run.Floor("idle_list_audits", int64(rounds/2))
+	run.Floor("idle_conns_closed_by_peer_fin_confirmed", int64(rounds/10))
+	run.Floor("tunnels_started_after_peer_closed_an_idle_conn", int64(rounds/10))
 }
